@@ -719,6 +719,9 @@ pub fn eval_case(w: &mut Worker, c: &Case) -> Result<Outcome, String> {
     // updates: full update with the changed field marked, and the binding-map fast path, against a fresh creation
     let trees: Vec<Value> = changed.iter().map(|f| json!({ f.as_str(): true })).collect();
     let resp = w.request(&json!({"kind":"history","bundle":compiled.bundle,"entry":"p","data":djs,"trees":trees})).map_err(|e| e.0)?;
+    if resp.get("domainExit").is_some() {
+        out.labels.push("domain-exit:non-unique-keys".into());
+    }
     for st in resp["steps"].as_array().cloned().unwrap_or_default() {
         for m in st["mismatches"].as_array().cloned().unwrap_or_default().iter().take(2) {
             let mm = Mismatch::from_json(m);
